@@ -137,7 +137,7 @@ func init() {
 	}
 	properties["C13"] = Property{
 		Level: "exploration",
-		Rule:  "one case = one hostile document (grammar: wrong types under reserved keys, variable-looking strings as data/keys/ids, empty and up-to-64-deep containers, heterogeneous arrays, raw non-JSON bodies) through one entry point (AddFact, AddRule, RemFact, GetFact, SearchFacts, SearchRules, Query, ProcessEvent, ListRules) of core.Location, sys.System or the HTTP service (httptest), both states, each followed by canary traffic (AddFact/GetFact/ProcessEvent of a fixed rule) on the same location; oracle: returns within 25 s, no panic, HTTP answers, canary still works; non-trivial = the document touches a reserved key, has a variable-looking string or depth >= 8; distinct by canonical JSON of the call; (batch 0) `storedVarStrings`: facts holding variable-looking strings stay stored while queries, rule conditions and searches using the same variable names run; `hostileScripts`: 50 scripts calling the Env functions with absent / ill-typed / malformed arguments, throwing hostile objects, returning or storing values JSON cannot render (NaN, Inf), as action and as condition, each followed by a canary (write, read, search, event); raw bodies include empty JSON-typed parameters; unusual variable names ('?who(', '?a[', …) in rules with endpoint actions and script actions",
+		Rule:  "one case = one hostile document (grammar: wrong types under reserved keys, variable-looking strings as data/keys/ids, empty and up-to-64-deep containers, heterogeneous arrays, raw non-JSON bodies) through one entry point (AddFact, AddRule, RemFact, GetFact, SearchFacts, SearchRules, Query, ProcessEvent, ListRules) of core.Location, sys.System or the HTTP service (httptest), both states, each followed by canary traffic (AddFact/GetFact/ProcessEvent of a fixed rule) on the same location; oracle: returns within 25 s, no panic, HTTP answers, canary still works; non-trivial = the document touches a reserved key, has a variable-looking string or depth >= 8; distinct by canonical JSON of the call; (batch 0) `storedVarStrings`: facts holding variable-looking strings stay stored while queries, rule conditions and searches using the same variable names run; `hostileScripts`: 50 scripts calling the Env functions with absent / ill-typed / malformed arguments, throwing hostile objects, returning or storing values JSON cannot render (NaN, Inf), as action and as condition, each followed by a canary (write, read, search, event); `ruleLikeFacts`: 9 rule-like items (facts carrying malformed rule bodies, `when` patterns the matcher refuses) next to an ordinary rule with the same `when`, which must still run; `refusedReplacement` also on a System that reloads the location per request; raw bodies include empty JSON-typed parameters; unusual variable names ('?who(', '?a[', …) in rules with endpoint actions and script actions",
 		Floor: [2]int{1000, 10000},
 		Assumptions: []string{"per-call watchdog 25 s for operations that take milliseconds", "the strict canary (canary rule fired) is applied only while no hostile item with a `rule` key is stored, otherwise the canary only has to return without panic", "the process-fatal sheens recursion (same repeated variable string in pattern and datum) is confined to a dedicated child; pattern-position documents get fresh, non-repeated variable names"},
 		Stages: []Stage{c13("loc", [2]int{4, 8}), c13("sys", [2]int{2, 4}), c13("http", [2]int{2, 4}), c13("sheens", [2]int{1, 1})},
